@@ -324,7 +324,19 @@ func runC07(c *core.Ctx) {
 			sort.Strings(k.keys)
 			k.total += 3
 		}
-		k.Init()
+		if (w.Hist-base)%7 == 4 {
+			// the identity split between the two files: name in one, e-mail in the other
+			k.goit("init")
+			if w.Hist%2 == 0 {
+				k.goit("config", "user.name", "Split Local")
+				k.goit("config", "--global", "user.email", "global@example.com")
+			} else {
+				k.goit("config", "--global", "user.name", "Split Global")
+				k.goit("config", "user.email", "local@example.com")
+			}
+		} else {
+			k.Init()
+		}
 		for i, p := range k.Pool {
 			if i >= 5 {
 				break
@@ -724,6 +736,10 @@ func writeIgnoreScenario(k *Walker) {
 		w.Write("../home/dotfiles/goit-ignore-rules", []byte(strings.Join(lines, "\n")+"\n"))
 		w.Symlink(".goitignore", "../home/dotfiles/goit-ignore-rules")
 		k.W.C.Count("scale.ignore-file-is-a-symlink")
+	} else if r.IntN(6) == 0 {
+		// an ignore file saved with CR LF line ends (an editor on another platform): the rules are the same
+		w.Write(".goitignore", []byte(strings.Join(lines, "\r\n")+"\r\n"))
+		k.W.C.Count("scale.ignore-file-with-crlf")
 	} else {
 		w.Write(".goitignore", []byte(strings.Join(lines, "\n")+"\n"))
 	}
